@@ -20,6 +20,7 @@
 #include <dirent.h>
 #include <fcntl.h>
 #include <set>
+#include <sys/resource.h>
 #include <sys/stat.h>
 #include <sys/wait.h>
 #include <unistd.h>
@@ -957,6 +958,24 @@ int main(int argc, char **argv) {
   }
   if (const char *r = getenv("VERIF_ROOT"))
     g_root = r;
+  // The fixpoint over a recursive function is itself recursive in crab: a
+  // diverging analysis must exhaust its tick budget (a C05 violation), not the
+  // 8 MB default stack (a crash). Re-exec once with a 2 GB stack limit.
+  if (!getenv("CRABSIM_BIG_STACK")) {
+    struct rlimit rl;
+    if (getrlimit(RLIMIT_STACK, &rl) == 0) {
+      rlim_t want = (rlim_t)2048 * 1024 * 1024;
+      if (rl.rlim_max != RLIM_INFINITY && rl.rlim_max < want)
+        want = rl.rlim_max;
+      if (rl.rlim_cur == RLIM_INFINITY || rl.rlim_cur < want) {
+        rl.rlim_cur = want;
+        if (setrlimit(RLIMIT_STACK, &rl) == 0) {
+          setenv("CRABSIM_BIG_STACK", "1", 1);
+          execv(g_self.c_str(), argv);
+        }
+      }
+    }
+  }
   Options o;
   for (int i = 1; i < argc; i++) {
     std::string a = argv[i];
